@@ -141,8 +141,11 @@ pub fn print_impl_from<W: std::fmt::Write, T: FromTemplate>(
                         let variant = c.as_str();
                         let matcher = match variant {
                             "default" => {
+                                // The catch-all arm is written after all
+                                // other void arms so it cannot shadow a
+                                // case declared after it.
                                 did_void_default = true;
-                                "_".to_string()
+                                continue;
                             }
                             other => ast
                                 .constants()
@@ -165,6 +168,9 @@ pub fn print_impl_from<W: std::fmt::Write, T: FromTemplate>(
                             matcher,
                             NonDigitName(SafeName(variant))
                         )?;
+                    }
+                    if did_void_default {
+                        writeln!(w, "_ => Self::default,")?;
                     }
 
                     // Write a default case if present, else a catch all case that
